@@ -286,8 +286,9 @@ def _branch_and_price(
                 best_solution = candidate
                 best_obj = obj
 
-                # Check gap
-                gap = (best_obj - lp_obj) / max(abs(best_obj), 1e-10)
+                # Check gap against the best bound still open: nodes are popped in order of their bound,
+                # so node.bound underestimates every open node (this node's own LP value does not)
+                gap = (best_obj - node.bound) / max(abs(best_obj), 1e-10)
                 if gap < gap_tol and bounds_proven:
                     return Result(best_solution, best_obj, nodes_explored, total_cg_iters, Status.OPTIMAL)
             continue
